@@ -200,7 +200,7 @@ def gen_cells(ctx):
   rng = ctx.rng
   cols = fixture()
   out = []
-  vals = [pv.gen_value(rng) for _ in range(ctx.n(260, 4000))] + EDGE_VALUES + edge_objects()
+  vals = [pv.gen_value(rng) for _ in range(ctx.n(110, 4000))] + EDGE_VALUES + edge_objects()
   for v in vals:
     edge = len(out) >= 0 and (v is None or not isinstance(v, (int, float, str)) or rng.random() < 0.3)
     ts = [rng.choice(COLTYPES)]
@@ -248,11 +248,40 @@ def res_lit(b, res, with_err):
   return '(Ok %s)' % b.val(x)
 
 
+def digest(m):
+  """the model never looks inside marshalled bytes: they are named by a digest (short literals)"""
+  import hashlib
+  return list(hashlib.sha1(bytes(m)).digest()[:8])
+
+
+def short_bytes(b, x):
+  return '(PBytes false %s)' % pv.zl(digest(x)) if type(x) is bytes else b.val(x)
+
+
 def pairs_lit(b, pairs):
-  return '[%s]' % '; '.join('(%s, %s)' % (b.val(x), pv.zl(list(m))) for x, m in pairs)
+  return '[%s]' % '; '.join('(%s, %s)' % (short_bytes(b, x), pv.zl(digest(m))) for x, m in pairs)
 
 
 IMPORTS = ['Grist.Lib.PyFloat', 'Grist.Model.Values', 'Grist.Model.Reload']
+# the oracle tables encode_f / decode_f / col_set / py_eq can consult (read off Model/Values.v and Model/Reload.v)
+NEED = set(['str', 'repr', 'type_name', 'float_repr', 'utf8', 'dt_offset', 'ts_offset', 'zone_known', 'truthy', 'json', 'int_of_str', 'iter'])
+
+
+def clone(v):
+  """a distinct but equal object where Python can build one (containers rebuilt, leaves shared)"""
+  if type(v) is list:
+    return [clone(x) for x in v]
+  if type(v) is tuple:
+    return tuple([clone(x) for x in v]) if v else ()
+  if type(v) is dict:
+    return dict((k, clone(x)) for k, x in v.items())
+  if type(v) is float:
+    return float(repr(v)) if v == v else v
+  if type(v) is str and v:
+    return ''.join(list(v))
+  if type(v) is int and abs(v) > 300:
+    return int(repr(v))
+  return v
 
 
 def correspond_cells(ctx):
@@ -268,7 +297,7 @@ def correspond_cells(ctx):
       res = real_set(t, v)
       if res[0] == 'ok':
         b.collect(res[1])
-      lit = lit_case(b.val(v), b.tables(), ctype_lit(t), res_lit(b, res, False))
+      lit = lit_case(b.val(v), b.tables(NEED), ctype_lit(t), res_lit(b, res, False))
     except RecursionError:
       continue
     if lit not in seen:
@@ -290,8 +319,9 @@ def correspond_cells(ctx):
       if res2[0] == 'ok':
         b.collect(res2[1])
       for x, _m in pairs:
-        b.collect(x)
-      lit = lit_case(b.val(raw), b.tables(), ctype_lit(t), pairs_lit(b, pairs), pv.opt(err_field(raw), pv.slit), res_lit(b, res2, True))
+        if type(x) is not bytes:
+          b.collect(x)
+      lit = lit_case(b.val(raw), b.tables(NEED), ctype_lit(t), pairs_lit(b, pairs), pv.opt(err_field(raw), pv.slit), res_lit(b, res2, True))
     except RecursionError:
       continue
     except ValueError as ex:
@@ -328,3 +358,246 @@ def correspond_cells(ctx):
                'type %s cell %s -> %s (error field %r)' % (t, pv.to_expr(v)[:160], pv.to_expr(r2[1])[:160] if r2[0] == 'ok' else r2,
                                                            err_field(r2[1]) if r2[0] == 'ok' else None))
   ctx.extra['cases_in_coq'] = len(set_cases) + len(rl_cases)
+
+
+# ---- change detection and reading: strict_equal / equal_encoding / get_cell_value --------------------------------
+
+def comparable(v, depth=0, top=True):
+  """inside the modelled domain of Python's ==: None/bool/int/float/str/bytes/list/tuple/str-keyed dict/date/datetime (no NaN
+  inside a container: CPython's identity shortcut), and at top level the Grist objects that have no __eq__"""
+  import datetime
+  import objtypes
+  t = type(v)
+  if v is None or t in (bool, int, str, bytes):
+    return True
+  if t is float:
+    return top or v == v
+  if t in (list, tuple):
+    return depth < 30 and all(comparable(x, depth + 1, False) for x in v)
+  if t is dict:
+    return depth < 30 and all(type(k) is str and comparable(x, depth + 1, False) for k, x in v.items())
+  if t is datetime.date:
+    return True
+  if t is datetime.datetime:
+    import moment
+    return v.tzinfo is None or isinstance(v.tzinfo, moment.TzInfo)
+  if top and (t in (objtypes.RaisedException, objtypes.RecordStub, objtypes.RecordSetStub, objtypes.UnmarshallableValue)
+              or v is objtypes._pending_sentinel or v is objtypes._censored_sentinel):
+    return True
+  return False
+
+
+def encodable_plain(v):
+  """equal_encoding compares encodings: any value whose encoding has no NaN inside a container"""
+  import objtypes
+  try:
+    e = objtypes.encode_object(v)
+  except Exception:
+    return False
+  stack, top = [e], True
+  while stack:
+    x = stack.pop()
+    if isinstance(x, float) and x != x and not top:
+      return False
+    top = False
+    if isinstance(x, (list, tuple)):
+      stack.extend(x)
+    elif isinstance(x, dict):
+      stack.extend(x.values())
+  return True
+
+
+def correspond_compare(ctx):
+  import objtypes
+  rng = ctx.rng
+  stored = getattr(ctx, '_c07_stored', [])
+  pairs = []
+  pool = [raw for _t, raw, _r in stored]
+  for t, raw, rl in stored:
+    if rl is not None:
+      pairs.append((raw, rl, 'saved-vs-reloaded'))
+  for _ in range(ctx.n(200, 4000)):
+    a = rng.choice(pool)
+    k = rng.random()
+    if k < 0.35:
+      pairs.append((a, clone(a), 'copy'))
+    elif k < 0.6:
+      try:
+        b = objtypes.decode_object(objtypes.encode_object(a))
+      except Exception:
+        continue
+      pairs.append((a, b, 'recoded'))
+    else:
+      pairs.append((a, rng.choice(pool), 'random'))
+  fixed = [(1, 1.0), (1, True), (True, True), (0.0, -0.0), (float('nan'), float('nan')), ([1], [1.0]), ([True], [1]), ((1, 2), [1, 2]),
+           ('a', 'a'), ('a', b'a'), (None, None), (None, 0), ({'a': 1, 'b': 2}, {'b': 2, 'a': 1}), ({'a': 1}, {'a': 2}), ([], ()), ([], []),
+           (2 ** 40, 2 ** 40), (2 ** 40, float(2 ** 40)), ([1, [2, 3]], [1, [2, 3]]), ([1, [2, 3]], [1, [2, 4]]), (5, 5), (5, 6), (1.5, 1.5),
+           (pv.IntSub(5), 5), (pv.StrSub('a'), 'a'), (b'a', b'a'), ('1', 1)]
+  pairs += [(a, b, 'fixed') for a, b in fixed]
+  se_cases, se_meta, ee_cases, ee_meta = [], [], [], []
+  seen = set()
+  for a, b, how in pairs:
+    if a is b:
+      continue
+    try:
+      bd = pv.Builder()
+      bd.collect(a)
+      bd.collect(b)
+      la, lb, tb = bd.val(a), bd.val(b), bd.tables(NEED)
+    except RecursionError:
+      continue
+    if comparable(a) and comparable(b):
+      r = objtypes.strict_equal(a, b)
+      lit = '(%s, %s, %s, %s)' % (la, lb, tb, pv.blit(r))
+      if ('s', lit) not in seen:
+        seen.add(('s', lit))
+        se_cases.append(lit)
+        se_meta.append((a, b))
+        ctx.count('s' + lit, nontrivial=r or type(a) is type(b), kind='strict_equal:%s:%s' % (how, r))
+    if encodable_plain(a) and encodable_plain(b):
+      r = objtypes.equal_encoding(a, b)
+      lit = '(%s, %s, %s, %s)' % (la, lb, tb, pv.blit(r))
+      if ('e', lit) not in seen:
+        seen.add(('e', lit))
+        ee_cases.append(lit)
+        ee_meta.append((a, b))
+        ctx.count('e' + lit, nontrivial=True, kind='equal_encoding:%s:%s' % (how, r))
+  ctype = 'value * value * tables * bool'
+  bad = ctx.run_cases('strict', IMPORTS, 'fun c => match c with (a, b, tbl, r) => Bool.eqb (strict_equal (oracles_of tbl) a b) r end',
+                      se_cases, shard=150, case_type=ctype)
+  for k in bad[:6]:
+    a, b = se_meta[k]
+    ctx.broken('correspondence:model strict_equal differs from objtypes.strict_equal',
+               '%s vs %s -> %r' % (pv.to_expr(a)[:100], pv.to_expr(b)[:100], objtypes.strict_equal(a, b)))
+  bad = ctx.run_cases('equalenc', IMPORTS,
+                      'fun c => match c with (a, b, tbl, r) => Bool.eqb (equal_encoding (oracles_of tbl) %d a b) r end' % FUEL,
+                      ee_cases, shard=150, case_type=ctype)
+  for k in bad[:6]:
+    a, b = ee_meta[k]
+    ctx.broken('correspondence:model equal_encoding differs from objtypes.equal_encoding',
+               '%s vs %s -> %r' % (pv.to_expr(a)[:100], pv.to_expr(b)[:100], objtypes.equal_encoding(a, b)))
+  ctx.extra['cases_in_coq'] = ctx.extra.get('cases_in_coq', 0) + len(se_cases) + len(ee_cases)
+
+
+def real_observe(t, raw):
+  """What a reader of the cell gets from column.get_cell_value: ('raise', class name its own error reports) or ('see', raw)."""
+  import objtypes
+  col = fixture()[t]
+  col._data[2] = raw                     # the raw object itself (set would normalise it)
+  try:
+    col.get_cell_value(2)
+    res = ('see', raw)
+  except Exception as ex:
+    res = ('raise', objtypes.RaisedException(ex)._name)
+  col._data[2] = col.getdefault()
+  return res
+
+
+def correspond_observe(ctx):
+  import objtypes
+  cases, meta = [], []
+  seen = set()
+  for t, raw, rl in getattr(ctx, '_c07_stored', []):
+    for c in (raw, rl):
+      if not isinstance(c, objtypes.RaisedException):
+        continue
+      kind, name = real_observe(t, c)
+      if kind != 'raise':
+        raise core.TieBroken('get_cell_value of an error cell did not raise')
+      b = pv.Builder()
+      lit = '((%s, %s), %s)' % (b.val(c), pv.opt(err_field(c), pv.slit), pv.slit(name))
+      if lit not in seen:
+        seen.add(lit)
+        cases.append(lit)
+        meta.append((t, c))
+        ctx.count('o' + lit, nontrivial=True, kind='observe:error:%s' % ('decoded' if c.error is None else 'raised'))
+  bad = ctx.run_cases('observe', IMPORTS, 'fun c => obs_eqb (observe (fst c)) (ORaise (snd c))', cases, shard=300,
+                      case_type='cell * str')
+  for k in bad[:6]:
+    t, c = meta[k]
+    ctx.broken('correspondence:model observe differs from column.get_cell_value',
+               '%s cell %s reports %r' % (t, pv.to_expr(c)[:120], real_observe(t, c)))
+  # a value that is not an error is handed to the reader as a function of (column, raw object): checked by reading twice
+  for t, raw, _rl in getattr(ctx, '_c07_stored', [])[:400]:
+    if isinstance(raw, objtypes.RaisedException):
+      continue
+    col = fixture()[t]
+    col._data[2] = raw
+    try:
+      a, b = col.get_cell_value(2), col.get_cell_value(2)
+      ok = type(a) is type(b)
+    except Exception as ex:
+      ok = False
+    col._data[2] = col.getdefault()
+    if not ok:
+      ctx.broken('monitor:get_cell_value is not a function of the raw object', '%s %s' % (t, pv.to_expr(raw)[:100]))
+      break
+
+
+def deep_same(a, b):
+  stack = [(a, b)]
+  while stack:
+    a, b = stack.pop()
+    if type(a) is not type(b):
+      return False
+    if isinstance(a, float):
+      if pv.fkey(a) != pv.fkey(b):
+        return False
+    elif isinstance(a, (list, tuple)):
+      if len(a) != len(b):
+        return False
+      stack.extend(zip(a, b))
+    elif isinstance(a, dict):
+      if len(a) != len(b):
+        return False
+      for (k1, v1), (k2, v2) in zip(a.items(), b.items()):
+        stack.append((k1, k2))
+        stack.append((v1, v2))
+    elif a != b:
+      return False
+  return True
+
+
+def monitors(ctx):
+  """marshal_rt on everything the reload hands to marshal; the library facts of C24 on the dates met."""
+  import datetime
+  import moment
+  import objtypes
+  n = 0
+  for t, raw, _rl in getattr(ctx, '_c07_stored', []):
+    try:
+      enc = objtypes.encode_object(raw)
+      x = db_cell(enc)
+    except Exception:
+      continue
+    for y in ([enc, x] if isinstance(enc, list) else [x]):
+      n += 1
+      if not deep_same(marshal.loads(marshal.dumps(y, 2)), y):
+        ctx.broken('monitor:marshal.loads(marshal.dumps(x)) differs from x', repr(y)[:200])
+        return
+  ctx.extra['marshal_roundtrips_checked'] = n
+  if 'UTC' not in moment.get_tz_data():
+    ctx.broken('monitor:UTC is not a known zone', '')
+  rng = ctx.rng
+  for _ in range(ctx.n(300, 5000)):
+    d = rng.randint(-719162, 2932896)
+    td = datetime.timedelta(days=d)
+    if datetime.timedelta(seconds=td.total_seconds()) != td:
+      ctx.broken('monitor:timedelta(seconds=total_seconds) not exact on whole days', str(d))
+      break
+    u = rng.randint(-62135596800000000, 253402300799999999)
+    td = datetime.timedelta(microseconds=u)
+    back = datetime.timedelta(seconds=td.total_seconds())
+    if abs((back - td) // pv.US) > 16 or back.total_seconds() != td.total_seconds():
+      ctx.broken('monitor:timedelta(seconds=total_seconds) off by more than 16 microseconds', str(u))
+      break
+
+
+def correspond(ctx):
+  core.setup_impl_path()
+  correspond_cells(ctx)
+  ctx.log('cells evaluated')
+  correspond_compare(ctx)
+  correspond_observe(ctx)
+  monitors(ctx)
+  ctx.log('comparisons, reads and monitors done')
